@@ -142,4 +142,138 @@ theorem save_patch_size_inner (cfg : LoaderCfg) (hoffs : cfg.checksOffsets = tru
     exact load_patch_size_inner cfg hoffs alloc pre u u2 post (by rw [← hlen]; exact hn) _ z
       (by simp only [headerSize, tableEntrySize]; omega) (by rw [Nat.mod_eq_of_lt hz]; exact hne)
 
+/-! ### the last entry's size -/
+
+/-- what a saved image holds in its registered slots -/
+theorem saved_slots_good {a : Arena} (h : WF a) :
+    (∀ r ∈ a.relocs, r.buf < (bodies (toRefs a)).length ∧ r.off + 8 ≤ ((bodies (toRefs a)).getD r.buf []).length) ∧
+    (∀ r ∈ a.relocs, ∃ x, rd64 ((bodies (toRefs a)).getD r.buf []) r.off = encRef x ∧ GoodD (bodies (toRefs a)) x) := by
+  have hlenB : (bodies (toRefs a)).length = a.bufs.length := by rw [toRefs_eq]; simp [bodies]
+  have hlen : ∀ j, ((bodies (toRefs a)).getD j []).length = (a.bufAt j).data.length := by
+    intro j; rw [bodies_getD, toRefs_eq, bufAt_mapSlots_len]
+  constructor
+  · intro r hr
+    have ⟨h1, h2⟩ := h.slots.2 r hr
+    exact ⟨by rw [hlenB]; exact h2, by rw [hlen]; exact h1⟩
+  · intro r hr
+    refine ⟨(ptrToRef a.bufs (getSlot a r)).2, ?_, ?_⟩
+    · rw [bodies_getD]
+      show getSlot (toRefs a) r = _
+      rw [toRefs_eq, getSlot_mapSlots _ h.slots hr, Nat.mod_eq_of_lt (encRef_lt _)]
+    · rcases h.valid r hr with h0 | ⟨j, hj, hh⟩
+      · rw [h0, ptrToRef_zero]; exact Or.inl rfl
+      · rw [ptrToRef_hit h.ranges hj hh]
+        unfold Hits at hh
+        refine Or.inr ⟨_, rfl, by rw [hlenB]; exact hj, ?_⟩
+        show getSlot a r - (a.bufs.getD j {}).base < ((bodies (toRefs a)).getD j []).length
+        rw [hlen]; unfold Arena.bufAt; omega
+
+theorem split_last {α : Type} (l : List α) (m : Nat) (hm : l.length = m + 1) (dflt : α) :
+    l = l.take m ++ [l.getD m dflt] := by
+  obtain ⟨pre, u, post, hl, hpre⟩ := split_at l m (by omega)
+  have hpost : post = [] := by
+    apply List.eq_nil_of_length_eq_zero
+    have := congrArg List.length hl
+    simp only [List.length_append, List.length_cons] at this
+    omega
+  subst hpost
+  rw [hl, ← hpre]
+  simp
+
+/-- the saved image of an arena with m+1 buffers, in the shape the last-entry lemmas want -/
+theorem save_last_shape (a : Arena) (m : Nat) (hm : a.bufs.length = m + 1) :
+    ∃ dpre dlast, bodies (toRefs a) = dpre ++ [dlast] ∧ dpre.length = m ∧ dlast.length = (a.bufAt m).data.length ∧
+      (∀ d ∈ dpre, ∃ b ∈ a.bufs, d.length = b.data.length) ∧
+      save a = header (dpre.length + 1) ++ (table (headerSize + tableEntrySize * (dpre.length + 1)) (dpre.map (·.length) ++ [dlast.length]) ++
+        (dpre.flatten ++ (dlast ++ relocBytes a.relocs))) := by
+  have hlenB : (bodies (toRefs a)).length = m + 1 := by rw [toRefs_eq]; simp [bodies, hm]
+  have hsp := split_last (bodies (toRefs a)) m hlenB []
+  refine ⟨(bodies (toRefs a)).take m, (bodies (toRefs a)).getD m [], hsp, by rw [List.length_take]; omega, ?_, ?_, ?_⟩
+  · rw [bodies_getD, toRefs_eq, bufAt_mapSlots_len]
+  · intro d hd
+    have hd' : d ∈ bodies (toRefs a) := List.mem_of_mem_take hd
+    have : d.length ∈ (bodies (toRefs a)).map (·.length) := List.mem_map.2 ⟨d, hd', rfl⟩
+    rw [bodies_toRefs_lengths] at this
+    simp only [bodies, List.mem_map] at this
+    obtain ⟨d', ⟨b, hb, rfl⟩, he⟩ := this
+    exact ⟨b, hb, he.symm⟩
+  · rw [save_split, hm]
+    have hl : ((bodies (toRefs a)).take m).length = m := by rw [List.length_take]; omega
+    rw [hl]
+    congr 2
+    · rw [← bodies_toRefs_lengths]
+      conv => lhs; rw [hsp]
+      simp
+    · conv => lhs; rw [hsp]
+      simp [List.append_assoc]
+
+/-- **the size of the last buffer raised**: accepted exactly when a whole number of relocation entries is swallowed -/
+theorem save_patch_size_raised_iff (cfg : LoaderCfg) (hh : Hardened cfg) (alloc : Nat → Nat) (hnz : ∀ i, alloc i ≠ 0) {a : Arena} (h : WF a)
+    (hs2 : ∀ b ∈ a.bufs, b.data.length ≤ 2 ^ 31) (m : Nat) (hm : a.bufs.length = m + 1) (z : Nat) (hz : z < 2 ^ 32)
+    (hgt : (a.bufAt m).data.length < z) :
+    (∃ A, load cfg alloc (patch (save a) (sizeFieldAt m) (leBytes 4 z)) = .ok A ∧
+        A.relocs = a.relocs.drop ((z - (a.bufAt m).data.length) / 8)) ↔
+      ((z - (a.bufAt m).data.length) % 8 = 0 ∧ z - (a.bufAt m).data.length ≤ 8 * a.relocs.length ∧ CapOk z) := by
+  obtain ⟨dpre, dlast, hds, hpl, hdl, hdpre, hsave⟩ := save_last_shape a m hm
+  have hn : dpre.length + 1 ≤ maxBuffers := by rw [hpl, ← hm]; exact h.count
+  have hs : ∀ d ∈ dpre, d.length ≤ 2 ^ 31 := by
+    intro d hd
+    obtain ⟨b, hb, he⟩ := hdpre d hd
+    rw [he]; exact hs2 b hb
+  subst hpl
+  rw [hsave, ← hdl]
+  constructor
+  · rintro ⟨A, hA, _⟩
+    apply Classical.byContradiction
+    intro hbad
+    rw [load_patch_size_raised_bad cfg hh alloc dpre dlast hn hs a.relocs z hz (by rw [hdl]; exact hgt) hbad] at hA
+    cases hA
+  · rintro ⟨h8, hle, hcap⟩
+    obtain ⟨hin, hgood⟩ := saved_slots_good h
+    rw [hds] at hin hgood
+    have hzj : dlast.length + 8 * ((z - dlast.length) / 8) = z := by rw [hdl] at h8 ⊢; omega
+    have := load_patch_size_raised_ok cfg alloc hnz dpre dlast hn hs a.relocs ((z - dlast.length) / 8) (by omega)
+      (by rw [hzj]; exact ⟨hz, hcap⟩) h.slots.1 hin hgood
+    rw [hzj] at this
+    exact this
+
+/-- **the size of the last buffer lowered** -/
+theorem save_patch_size_lowered (cfg : LoaderCfg) (alloc : Nat → Nat) {a : Arena} (hn : a.bufs.length ≤ maxBuffers)
+    (hs2 : ∀ b ∈ a.bufs, b.data.length ≤ 2 ^ 31) (m : Nat) (hm : a.bufs.length = m + 1) (z : Nat)
+    (hlt : z < (a.bufAt m).data.length) :
+    load cfg alloc (patch (save a) (sizeFieldAt m) (leBytes 4 z)) =
+      applyRelocs cfg { bufs := loadedBufs alloc 0 ((bodies (toRefs a)).take m ++ [((bodies (toRefs a)).getD m []).take z]),
+                        relocs := [], init := loadInitialSize }
+        (((bodies (toRefs a)).getD m []).drop z ++ relocBytes a.relocs) := by
+  obtain ⟨dpre, dlast, hds, hpl, hdl, hdpre, hsave⟩ := save_last_shape a m hm
+  have hn' : dpre.length + 1 ≤ maxBuffers := by rw [hpl, ← hm]; exact hn
+  have hs : ∀ d ∈ dpre, d.length ≤ 2 ^ 31 := by
+    intro d hd
+    obtain ⟨b, hb, he⟩ := hdpre d hd
+    rw [he]; exact hs2 b hb
+  have hdl31 : dlast.length ≤ 2 ^ 31 := by
+    rw [hdl]; exact hs2 _ (mem_iff_getD.2 ⟨m, by omega, rfl⟩)
+  subst hpl
+  have htake : (bodies (toRefs a)).take dpre.length = dpre := by rw [hds]; simp
+  have hget : (bodies (toRefs a)).getD dpre.length [] = dlast := by rw [hds]; simp
+  rw [hsave, htake, hget]
+  exact load_patch_size_lowered cfg alloc dpre dlast hn' hs hdl31 _ z (by rw [hdl]; exact hlt)
+
+theorem save_patch_size_lowered_dvd (cfg : LoaderCfg) (hh : Hardened cfg) (alloc : Nat → Nat) {a : Arena} (hn : a.bufs.length ≤ maxBuffers)
+    (hs2 : ∀ b ∈ a.bufs, b.data.length ≤ 2 ^ 31) (m : Nat) (hm : a.bufs.length = m + 1) (z : Nat)
+    (hlt : z < (a.bufAt m).data.length) :
+    (∃ A', load cfg alloc (patch (save a) (sizeFieldAt m) (leBytes 4 z)) = .ok A' ∧ ((a.bufAt m).data.length - z) % 8 = 0) ∨
+      load cfg alloc (patch (save a) (sizeFieldAt m) (leBytes 4 z)) = .error .corruptFile := by
+  obtain ⟨dpre, dlast, hds, hpl, hdl, hdpre, hsave⟩ := save_last_shape a m hm
+  have hn' : dpre.length + 1 ≤ maxBuffers := by rw [hpl, ← hm]; exact hn
+  have hs : ∀ d ∈ dpre, d.length ≤ 2 ^ 31 := by
+    intro d hd
+    obtain ⟨b, hb, he⟩ := hdpre d hd
+    rw [he]; exact hs2 b hb
+  have hdl31 : dlast.length ≤ 2 ^ 31 := by
+    rw [hdl]; exact hs2 _ (mem_iff_getD.2 ⟨m, by omega, rfl⟩)
+  subst hpl
+  rw [hsave, ← hdl]
+  exact load_patch_size_lowered_dvd cfg hh alloc dpre dlast hn' hs hdl31 a.relocs z (by rw [hdl]; exact hlt)
+
 end YaraModel.Arena
